@@ -1,22 +1,27 @@
-(* small integers are printed in decimal (all values here are tiny) *)
+(* small integers are printed in decimal (all matrix values here fit an OCaml int) *)
 let rec pos_to_int = function XH -> 1 | XO p -> 2 * pos_to_int p | XI p -> 2 * pos_to_int p + 1
 let z_to_int = function Z0 -> 0 | Zpos p -> pos_to_int p | Zneg p -> - (pos_to_int p)
 let p_zi z = p_int (z_to_int z)
 let p_trace tr = p_list (p_pair (p_list p_nat) (p_mat p_zi)) tr
 let p_c3 ((a, b), c) = ps "["; p_z a; ps ","; p_z b; ps ","; p_z c; ps "]"
+let raise_name = function
+  | 1 -> "ParamError" | 2 -> "NoQuad" | 3 -> "BadPeriod" | 4 -> "CastError" | 5 -> "DealError" | _ -> "?"
 let dispatch = function
   | "pick4" -> let n = next_nat () in let s = next_list next_z in
       p_opt (p_pair (p_list p_nat) p_nat) (run_pick4 n s)
   | "rs" -> let und = next_bool () in let w = next_mat next_z in let itr = next_nat () in
       let s = next_list next_z in
-      let ((r, (eff, rest)), tr) = run_randmio_signed und w itr s in
-      ps "["; p_mat p_zi r; ps ","; p_nat eff; ps ","; p_nat rest; ps ","; p_trace tr; ps "]"
-  | "nm" -> let und = next_bool () in let w = next_mat next_z in let bs = next_nat () in
-      let wf = next_q () in let ints = next_list next_z in
+      p_opt (fun ((r, (eff, rest)), tr) ->
+               ps "["; p_mat p_zi r; ps ","; p_nat eff; ps ","; p_nat rest; ps ","; p_trace tr; ps "]")
+            (run_randmio_signed und w itr s)
+  | "nm" -> let und = next_bool () in let w = next_mat next_z in
+      let isint = next_bool () in let close = next_bool () in let bs = next_nat () in
+      let wf = next_q () in let pf = next_z () in let ints = next_list next_z in
       let ords = next_mat next_nat in let perms = next_mat next_nat in
-      p_opt (fun ((r, corr), (wr, tr)) ->
-               ps "["; p_mat p_zi r; ps ","; p_list p_c3 corr; ps ","; p_mat p_zi wr; ps ",";
-               p_trace tr; ps "]")
-            (run_null_model und w bs wf ints ords perms)
+      (match run_null_model und w isint close bs wf pf ints ords perms with
+       | RunOk (r, corr, wr, tr, (u1, (u2, u3))) ->
+           ps "["; p_mat p_zi r; ps ","; p_list p_c3 corr; ps ","; p_mat p_zi wr; ps ",";
+           p_trace tr; ps ",["; p_nat u1; ps ","; p_nat u2; ps ","; p_nat u3; ps "]]"
+       | RunRaise c -> ps "{\"raise\":\""; ps (raise_name (int_of_nat c)); ps "\"}")
   | f -> failwith ("unknown function " ^ f)
 let () = main dispatch
